@@ -213,3 +213,19 @@ Theorem via_bytes_valid e0 vb pal body (s : Arc.S) :
             snd (decode_calls [] b) = Done /\
             Arc.rrun32 s (fst (decode_calls [] b)) = Arc.rrun32 s (CReset (m_vb (meta_of vb pal)) pal :: expect false false body).
 Proof. intros Wv V Wp Wb. apply via_bytes; try assumption. apply qvb_valid_any; assumption. Qed.
+
+(* C07: when every number of the program is a fixed point of write-and-read-back (exactly representable in its
+   form), the Renderer behind encode+decode ends in exactly the state of the Renderer fed directly *)
+Definition acts_calls (body : list Encoder.eact) : list call :=
+  flat_map (fun a => match a with Encoder.ACall c => [c] | _ => [] end) body.
+
+Theorem via_bytes_exact e0 vb pal body (s : Arc.S) :
+  wf_vb vb -> viewbox_invalid vb = false -> wf_pal pal -> wf_acts false body ->
+  expect false false body = acts_calls body -> m_vb (meta_of vb pal) = vb ->
+  exists b, snd (Encoder.enc_bytes (fst (Encoder.enc_run e0 (Encoder.ACall (CReset vb pal) :: body)))) = Encoder.BytesOk b /\
+            snd (decode_calls [] b) = Done /\
+            Arc.rrun32 s (fst (decode_calls [] b)) = Arc.rrun32 s (CReset vb pal :: acts_calls body).
+Proof.
+  intros Wv V Wp Wb Hx Hv. destruct (via_bytes_valid e0 vb pal body s Wv V Wp Wb) as (b & Eb & Ed & Er).
+  exists b. rewrite Er, Hx, Hv. auto.
+Qed.
